@@ -22,6 +22,9 @@ def main():
         print("replay: property %s %s on this input" % (pid, "HOLDS" if ok else "FAILS"))
         sys.exit(0 if ok else 1)
 
+    if a.tier == "thorough":
+        mod.LEAN_TARGETS = list(mod.LEAN_TARGETS) + list(getattr(mod, "LEAN_TARGETS_THOROUGH", []))
+        mod.PROPERTY_FILES = list(mod.PROPERTY_FILES) + list(getattr(mod, "PROPERTY_FILES_THOROUGH", []))
     ctx = Ctx(pid, a.tier, seed)
     broken = []       # proof obligations / correspondence that no longer check
     # 1-2: regenerate + build + audit
